@@ -144,8 +144,10 @@ def shutting_down_func(e):
                 if not manager_only(e, q) or q == run.qualname:
                     continue
                 rets = [n for n in func_nodes(f) if isinstance(n, ast.Return) and n.value is not None]
-                if len(rets) == 1 and (f, rets[0].value) not in cands:
-                    cands.append((f, rets[0].value))
+                from .util import body_as_expr
+                val = rets[0].value if len(rets) == 1 else body_as_expr(f.node.body) if rets else None
+                if val is not None and not any(c_[0] is f for c_ in cands):
+                    cands.append((f, val))
     if len(cands) != 1:
         raise AnalysisError(f"is-shutting-down predicate (manager predicate tested in the loop) not unique: {[c[0].short for c in cands]}")
     f, v = cands[0]
